@@ -1,3 +1,4 @@
+import MocVerif.Model.STCodec
 import Driver.Common
 import Driver.C06
 import MocVerif.Model.ST
@@ -40,6 +41,21 @@ def stepST (toks : List String) : Option String :=
   | ["st_obs", obs, tp, sp] => do
     let obs ← parseObs obs; let tp ← parseNats tp; let sp ← parseNats sp
     pure (bits (tp.flatMap fun t => sp.map fun s => obsB obs t s))
+  | _ => none
+
+
+def showElems (es : List STCodec.Elem) : String :=
+  if es.isEmpty then "_" else ";".intercalate (es.map fun e => s!"{showRngs e.1}@{showRngs e.2}")
+
+/-- C11: FITS v2 rows of an ST-MOC. -/
+def stepSTCodec (toks : List String) : Option String :=
+  match toks with
+  | ["st_fits_enc", w, m] => do
+    let w ← w.toNat?; let m ← parseST m
+    pure (showRngs (STCodec.encodeST w m))
+  | ["st_fits_dec", w, rows] => do
+    let w ← w.toNat?; let rows ← parseRngs rows
+    pure (showElems (STCodec.decodeST w rows))
   | _ => none
 
 end Drv
